@@ -44,7 +44,7 @@ def run_kind(c, wd, prop, kind, seed, segments, extra=()):
     c.cov.setdefault("kinds", {}).setdefault(kind, {"segments": 0, "stmts": 0, "engine_errors": 0})
     k = c.cov["kinds"][kind]
     k["segments"] += st["segments"]; k["stmts"] += st["stmts"]; k["engine_errors"] += st["errors"]
-    for key in ("nontrivial", "overlaps", "plan_pairs", "reopens", "vacuums", "configs", "inputs", "images", "index_scans", "enumerated"):
+    for key in ("nontrivial", "overlaps", "plan_pairs", "reopens", "vacuums", "configs", "inputs", "images", "nested_images", "recovering_images", "index_scans", "enumerated"):
         if key in st:
             c.add(key, st[key])
     if st.get("hung"):
@@ -84,7 +84,7 @@ def model_check_recovery(c, tier):
     c.add("states", r.distinct)
     c.add("transitions", r.generated)
     refuted = []
-    for dev, inv in (("AbortLoggedAsCommit", "ExactState"), ("TruncateBeforeRecoveredPagesDurable", "ExactState"),
+    for dev, inv in (("AbortLoggedAsCommit", "ExactState"), ("TruncateBeforeRecoveredPagesDurable", "ExactState"), ("RecoveryLogsReplay", "ExactState"),
                      ("MUT_AckWithoutForce", "Durable"), ("MUT_CheckpointTruncatesFirst", "Durable")):
         d = run_tlc("Recovery", os.path.join(vlib.SPEC, "MC_Recovery_dev_%s.cfg" % dev), workers=4)
         if d.violated != inv:
